@@ -99,6 +99,8 @@ struct Task {
   size_t fault_head;  // index into per-task fault order
   int cond_signalled;
   int timed_wait;
+  uint32_t blocked_pc;
+  uint32_t last_pc;
 };
 
 enum SKind : int { SK_ATOMIC = 0, SK_MUTEX = 1, SK_GUARD = 2, SK_ONCE = 3 };
@@ -254,6 +256,12 @@ void unpark(int* w) {
 }
 
 void end_run_abnormally() {
+  for (int i = 0; i < g.ntasks; ++i) {
+    g.res->end_state[i] = g.tasks[i].state;
+    g.res->end_op[i] = g.tasks[i].cur_op;
+    g.res->end_blocked_on[i] = g.tasks[i].blocked_on;
+    g.res->end_blocked_pc[i] = g.tasks[i].blocked_pc;
+  }
   g.run_over = 1;
   g.active = 0;
   unpark(&g.ctl_wake);
@@ -477,6 +485,7 @@ void draw_walk_skip() {
 // event it announces takes effect; returns when that task holds the baton.
 void yield_point(Task* t, int kind, unsigned size, uint32_t pc) {
   Result& r = *g.res;
+  t->last_pc = pc;
   uint64_t e = ++t->local_events;
   uint64_t off = e - t->op_start;
   ++g.step;
@@ -570,6 +579,7 @@ void yield_point(Task* t, int kind, unsigned size, uint32_t pc) {
 }
 
 void block_on(Task* t, uintptr_t addr) {
+  t->blocked_pc = t->last_pc;
   t->state = T_BLOCKED;
   t->blocked_on = addr;
   forced_switch(t, 1);
@@ -1640,6 +1650,18 @@ static inline void alloc_event(uint32_t pc, unsigned size) {
   yield_point(t, EV_ALLOC, size > 0xffff ? 0xffff : size, pc);
   t->in_rt = 0;
 }
+// a block handed out by the allocator is fresh: whatever was recorded for its addresses belongs to
+// a previous owner (it may have been freed inside an uninstrumented library, invisibly to us)
+static inline void on_alloc(void* p, size_t n) {
+  if (!p) return;
+  Task* t = tl_task;
+  if (t && g.active) {
+    int saved = t->in_rt;
+    t->in_rt = 1;
+    shadow_clear((uintptr_t)p, n);
+    t->in_rt = saved;
+  }
+}
 static inline void on_free(void* p) {
   if (!p) return;
   Task* t = tl_task;
@@ -1653,7 +1675,9 @@ static inline void on_free(void* p) {
 
 void* __wrap_malloc(size_t n) {
   alloc_event(PC(), (unsigned)n);
-  return __real_malloc(n);
+  void* p = __real_malloc(n);
+  on_alloc(p, n);
+  return p;
 }
 void __wrap_free(void* p) {
   if (!p) return;
@@ -1663,24 +1687,43 @@ void __wrap_free(void* p) {
 }
 void* __wrap_calloc(size_t a, size_t b) {
   alloc_event(PC(), (unsigned)(a * b));
-  return __real_calloc(a, b);
+  void* p = __real_calloc(a, b);
+  on_alloc(p, a * b);
+  return p;
 }
 void* __wrap_realloc(void* p, size_t n) {
   alloc_event(PC(), (unsigned)n);
   on_free(p);
-  return __real_realloc(p, n);
+  void* q = __real_realloc(p, n);
+  on_alloc(q, n);
+  return q;
 }
 int __wrap_posix_memalign(void** out, size_t al, size_t n) {
   alloc_event(PC(), (unsigned)n);
-  return __real_posix_memalign(out, al, n);
+  int rc = __real_posix_memalign(out, al, n);
+  if (rc == 0) on_alloc(*out, n);
+  return rc;
 }
 void* __wrap_aligned_alloc(size_t al, size_t n) {
   alloc_event(PC(), (unsigned)n);
-  return __real_aligned_alloc(al, n);
+  void* p = __real_aligned_alloc(al, n);
+  on_alloc(p, n);
+  return p;
 }
 void* __wrap_memalign(size_t al, size_t n) {
   alloc_event(PC(), (unsigned)n);
-  return __real_memalign(al, n);
+  void* p = __real_memalign(al, n);
+  on_alloc(p, n);
+  return p;
+}
+
+// exception objects are allocated and freed inside libstdc++.so; the object itself is constructed
+// by (possibly instrumented) code at the throw site
+void* __real___cxa_allocate_exception(size_t);
+void* __wrap___cxa_allocate_exception(size_t n) {
+  void* p = __real___cxa_allocate_exception(n);
+  on_alloc(p, n);
+  return p;
 }
 
 // bulk memory operations called from instrumented objects
@@ -1715,12 +1758,14 @@ void* __wrap_memset(void* d, int c, size_t n) {
 static inline void* new_impl(size_t n, uint32_t pc) {
   alloc_event(pc, (unsigned)n);
   void* p = __real_malloc(n ? n : 1);
+  on_alloc(p, n);
   return p;
 }
 static inline void* new_aligned_impl(size_t n, size_t al, uint32_t pc) {
   alloc_event(pc, (unsigned)n);
   void* p = nullptr;
   if (__real_posix_memalign(&p, al < sizeof(void*) ? sizeof(void*) : al, n ? n : 1)) return nullptr;
+  on_alloc(p, n);
   return p;
 }
 static inline void delete_impl(void* p, uint32_t pc) {
